@@ -379,3 +379,10 @@ class MaxFibonacciHeap(Generic[T, Key], FibonacciHeap[T, ReversedComparator[Key]
             def key(n: T):
                 return n
         super().__init__(key=lambda n: ReversedComparator(key(n)))
+
+    def decrease_key(self, x: HeapNode[T, ReversedComparator[Key]], k: Key):
+        # Keys are stored wrapped in a ReversedComparator (see __init__), so wrap the new key in the same way;
+        # for this heap a "decrease" moves the node towards the top, i.e., the unwrapped key increases
+        if not isinstance(k, ReversedComparator):
+            k = ReversedComparator(k)
+        super().decrease_key(x, k)
